@@ -8,7 +8,7 @@ from sa.astx import NotConst, call_attr, call_name, const_eval, dotted, lincmp, 
 from sa.selftest import Mutant, Silent
 from sa.source import AnalysisError, class_assigns
 from sa.props._lib_j import (all_paths, asserted_eq, asserted_in, bind_args, catching_handler, clone, edge_asserts,
-    handler_names, names_loaded, body_always_entered, dep, normalise, run_sections, node_calls, normal_exits, params, resolve, rsrc, taint)
+    handler_names, leaf_values, names_loaded, body_always_entered, dep, normalise, run_sections, node_calls, normal_exits, params, resolve, rsrc, taint)
 
 PROPERTY = "C48"
 CRED = "cred/credentials.py"
@@ -30,6 +30,7 @@ EXPLANATION = (
     "qop=auth-int); the unconditional ones (unknown algorithm, missing uri) are reported as known findings. "
     "The pair (issue time written by _generateOpaque, age test of _verifyOpaque) is evaluated over fractional clock phases and ages around the boundary: the stamp "
     "must be the floor of the clock and the accepted (issue, verify) instants must equal int(t') - int(t) <= LIFETIME (real age of an accepted challenge < LIFETIME + 1 s). "
+    "The values stored in the field dict are the regex groups of the response verbatim (only `or` between groups and .strip()): provenance rule, no rewriting between parse and hash. "
     "Also decided: no anchor on the decode->guards path (nor the clock, nonce and opaque generators) carries a decorator, second definition or rebinding that could answer a call without executing the body (memoisation of a verdict that depends on the clock); the pure _digest helpers may be cached. "
     "Methods: all clauses are decided structurally (for every input / path) except three evaluated ones: separator-vs-alphabet and client-address agreement are finite-exhaustive (whole codec alphabet; one address per class the code distinguishes, side condition checked - else the rule is reported as bounded '...-sampled'); the clock grid (lifetime/issue-time-is-floor-of-clock, lifetime/accepted-instants-equal-spec) is bounded evidence layered under the structural deciders verify/guard-lifetime (normalised boundary) and lifetime/stamp-conversion-is-floor / verifier-clock-is-floor (floor of the bare clock call). "
 )
@@ -483,6 +484,37 @@ def _s_decode(ctx, S):
     pd = params(fd)
     ctx.need(len(pd) == 4, "decode(self, response, method, host)")
     Rd = lambda e: resolve(e, fd)
+    # the field values kept for the hash computation are the bytes the client sent: what is stored in the field dict is a regex group of the response (or the first
+    # non-empty of several groups), at most stripped of surrounding whitespace - nothing is unescaped, replaced, re-coded or case-folded between parse and fields
+    group_names = set()
+    for n in walk_local(fd):
+        if isinstance(n, ast.For) and "_parseparts" in rsrc(n.iter, fd):
+            group_names |= {e.id for e in ast.walk(n.target) if isinstance(e, ast.Name)}
+    stores = [n for n in walk_local(fd) if isinstance(n, ast.Assign) and any(isinstance(t, ast.Subscript) and isinstance(t.value, ast.Name) for t in n.targets)]
+
+    def verbatim(e):
+        """None when e is built from regex groups by `or` / parentheses / .strip() only, else the offending sub-expression"""
+        if isinstance(e, ast.Name):
+            return None if e.id in group_names else e
+        if isinstance(e, ast.BoolOp) and isinstance(e.op, ast.Or):
+            return next((b for b in (verbatim(v) for v in e.values) if b is not None), None)
+        if isinstance(e, ast.IfExp):
+            return verbatim(e.body) or verbatim(e.orelse)
+        if isinstance(e, ast.Call) and isinstance(e.func, ast.Attribute) and e.func.attr == "strip" and not e.args and not e.keywords:
+            return verbatim(e.func.value)
+        return e
+    nstores = 0
+    if group_names:
+        for st_ in stores:
+            for v_, _, _ in leaf_values(fd, st_.value):
+                nstores += 1
+                bad_ = verbatim(v_)
+                ctx.check(bad_ is None, "decode/field-values-verbatim", ctx.construct(qd, "<fields>[<name>] = <value>"),
+                          f"the value stored for a response field is rewritten between parsing and the credentials ({src(bad_) if bad_ is not None else ''}): the server then "
+                          f"hashes other bytes than the client did, so a response computed with the right password (e.g. a quoted value containing a backslash) is rejected "
+                          f"- or two different field values become indistinguishable")
+    if not nstores:
+        ctx.note("decode/field-values-verbatim: no `<fields>[<name>] = <value>` over the regex groups recognised, clause not decided")
     # regex arity == unpack arity
     pat = class_assigns(cls).get("_parseparts")
     for n in walk_local(fd):
@@ -1054,6 +1086,9 @@ MUTANTS = [
            "", expect_rule="check-never-raises/unknown-algorithm"),
     Mutant("revert-F48d-missing-uri", _V, "        if \"uri\" not in auth:\n            raise error.LoginFailed(\"Invalid response, no uri given.\")\n\n", "",
            expect_rule="check-never-raises/missing-field-hashed"),
+    Mutant("quoted-values-unescaped-before-hashing", _V, "            value = (quoted or bare).strip()", "            value = (quoted or bare).strip().replace(b\"\\\\\\\"\", b\"\\\"\")",
+           expect_rule="decode/field-values-verbatim"),
+    Mutant("field-values-case-folded", _V, "            value = (quoted or bare).strip()", "            value = (quoted or bare).strip().lower()", expect_rule="decode/field-values-verbatim"),
     Mutant("short-key-index", _V, "        if len(keyParts) != 3:\n", "        if len(keyParts) < 2:\n", expect_rule="escape/index-in-range"),
     Mutant("checkHash-uses-cnonce-as-nonce", _V,
            "            calcHA2(algo, self.method, uri, qop, None),\n            algo,\n            nonce,\n            nc,\n            cnonce,\n            qop,\n        )\n\n        return expected == response\n\n\nclass DigestCredentialFactory",
